@@ -184,6 +184,13 @@ class _Inliner:
                     for p, a in b.items():
                         a2 = self.expr(copy.deepcopy(a), stack, depth)
                         pure = not any(isinstance(x, (ast.Call, ast.Await, ast.NamedExpr)) for x in ast.walk(a2))
+                        uses = sum(1 for st_ in body + ([ast.Expr(value=ret)] if ret is not None else []) for x in ast.walk(st_)
+                                   if isinstance(x, ast.Name) and x.id == p)
+                        written = any(isinstance(x, (ast.Subscript, ast.Attribute)) and isinstance(x.ctx, ast.Store) and
+                                      any(isinstance(y, ast.Name) and y.id == p for y in ast.walk(x.value))
+                                      for st_ in body for x in ast.walk(st_))
+                        # a computed argument is substituted only where the object's identity cannot matter
+                        pure = pure and uses <= 1 and not written
                         if (_simple(a2) or pure) and p not in stored:
                             mapping[p] = a2        # side-effect free argument of a parameter the helper never rebinds
                         else:
